@@ -51,6 +51,7 @@ KEYS_OK = ["k%d", "key%d.dot", "sl%d/ash", '"sp ace %d"', "%d", '"%d"', "hash%d#
 # as a wildcard): a key-escaping matter (C08 family), not this property's - such documents are run and counted only
 KEYS_ODD = ['"&amp%d"', "a%d\\\\b", "a%d*b"]
 ANCHORS = ["A", "B", "sec1", "x_y"]
+CONT_ANCHORS = ["box", "b"]      # anchors of Hashes/Arrays: every file draws from the same pool, so files reuse the names
 BLOCK_FORMS = ["plain", "dq", "sq", "spaced", "nl", "folded", "foldedstrip", "literal", "plainml", "foldedsp", "foldednl"]
 FLOW_FORMS = ["dq", "sq", "spaced", "nl"]
 
@@ -71,10 +72,16 @@ def case_tree(doc):
     root = {"t": "map", "flow": False, "items": []}
     conts = {1: root}
     seen = set()
+    referenced = set()
     for p, s in enumerate(slots, 1):
         c = s["cont"]
+        if s.get("vis", c) != c:          # a later visit of an anchored container: one `aN: *name` entry in the root
+            if s["vis"] not in referenced:
+                referenced.add(s["vis"])
+                root["items"].append(("a%d" % p, {"t": "alias", "anchor": s["canc"]}))
+            continue
         if c not in conts:
-            conts[c] = {"t": "seq" if c in (2, 3) else "map", "flow": False, "items": []}
+            conts[c] = {"t": "seq" if c in (2, 3) else "map", "flow": False, "items": [], "anchor": s.get("canc", "")}
             root["items"].append(({2: "s2", 3: "s3", 4: "m4"}[c], conts[c]))
         o = objs[s["o"] - 1]
         head = o["head"]
@@ -94,16 +101,25 @@ def case_tree(doc):
     return root
 
 
-def gen_tree(rng, want_secrets=True, odd_keys=False, foreign=True, fidelity=0.0):
+def gen_tree(rng, want_secrets=True, odd_keys=False, foreign=True, fidelity=0.0, boxes=0.0, box_alias=0.0):
     """Seeded random document: nesting <= 3, block and flow containers, all forms, anchors and aliases."""
     anchors = []          # names defined so far (document order)
     free = list(ANCHORS)
     counter = [0]
     odd = [False]
+    cfree = list(CONT_ANCHORS)
+    cclosed = []          # anchored containers that are complete (an alias of an open one would refer to itself)
 
-    def leaf(flow):
+    def leaf(flow, parent):
         counter[0] += 1
         r = rng.random()
+        if cclosed and rng.random() < box_alias:
+            # within one Array at most one element may be (a reference to) a given anchored container: the path
+            # generator addresses such an element as [&name], which designates all of them at once
+            name = rng.choice(cclosed)
+            if parent["t"] != "seq" or name not in parent["refs"]:
+                parent["refs"].add(name)
+                return {"t": "alias", "anchor": name}
         if anchors and r < 0.18:
             return {"t": "alias", "anchor": rng.choice(anchors)}
         if want_secrets and r < 0.6:
@@ -127,12 +143,16 @@ def gen_tree(rng, want_secrets=True, odd_keys=False, foreign=True, fidelity=0.0)
 
     def cont(depth, flow):
         t = "map" if rng.random() < 0.55 else "seq"
-        node = {"t": t, "flow": flow, "items": []}
+        node = {"t": t, "flow": flow, "items": [], "refs": set()}
+        if depth > 1 and cfree and rng.random() < boxes:
+            node["anchor"] = cfree.pop(0)
         for i in range(rng.randint(1, 4)):
             if depth < 3 and rng.random() < 0.3:
                 child = cont(depth + 1, flow or rng.random() < 0.2)
+                if child.get("anchor"):
+                    node["refs"].add(child["anchor"])
             else:
-                child = leaf(flow)
+                child = leaf(flow, node)
             if t == "map":
                 counter[0] += 1
                 pool = KEYS_ODD if (odd_keys and not flow and rng.random() < 0.3) else KEYS_OK
@@ -140,6 +160,8 @@ def gen_tree(rng, want_secrets=True, odd_keys=False, foreign=True, fidelity=0.0)
                 node["items"].append((rng.choice(pool if not flow else KEYS_OK[:2]) % counter[0], child))
             else:
                 node["items"].append(child)
+        if node.get("anchor"):
+            cclosed.append(node["anchor"])
         return node
 
     tree = cont(1, False)
@@ -176,6 +198,8 @@ def _run_chunk(chunk):
                "reload_error": [bool(f["reload_error"]) for f in fs],
                "nsecret": [sum(1 for x in f["info"] if x["secret"]) for f in fs],
                "all_old": all(info[i]["key"] == "old" for info, i in secret_slots),
+               "revisit": any(info[i]["loc"] != info[i]["pos"] for info, i in secret_slots),
+               "boxed": sum(1 for info, i in secret_slots if info[i]["canc"]),
                "trails": sorted({ro.trail_class(info[i]["plain"]) for info, i in secret_slots if info[i]["plain"] is not None}),
                "classes": sorted({ro.slot_class(info, i) for info, i in secret_slots}),
                "after_texts": [f["after_text"] for f in fs] if bad else [], "rawlog": obs["rawlog"] if bad else []}
@@ -316,7 +340,8 @@ def corruptions(rec):
 
 # --------------------------------------------------------------------------- the check
 PREDICTIONS = {"MC_YRotate_pinned.cfg": "AllNew", "MC_YRotate_pinned_rstrip.cfg": "PlaintextKept",
-               "MC_YRotate_noreset.cfg": "AllNew"}
+               "MC_YRotate_noreset.cfg": "AllNew", "MC_YRotate_leakyguard.cfg": "AllNew",
+               "MC_YRotate_guard_perfile.cfg": None}      # None: this alternative design must satisfy every clause
 # family -> (cfg quick, cfg thorough, replay everything up to this many positions in all files together (quick,
 # thorough), budget for the bigger ones (quick, thorough))
 FAMILIES = {
@@ -324,6 +349,7 @@ FAMILIES = {
     "marker": ("MC_YRotate_marker.cfg", "MC_YRotate_marker.cfg", (1, 1), (150, 2500)),
     "fid":    ("MC_YRotate_fid.cfg", "MC_YRotate_fid3.cfg", (1, 2), (200, 10 ** 9)),
     "files":  ("MC_YRotate_files.cfg", "MC_YRotate_files3.cfg", (2, 2), (250, 5000)),
+    "boxes":  ("MC_YRotate_boxes.cfg", "MC_YRotate_boxes3.cfg", (2, 2), (200, 5000)),
 }
 
 
@@ -346,7 +372,7 @@ def build_cases(ctx, rng):
     emitted = {}
     for (cfg, fam), r, out in results:
         if fam is None:
-            predictions[cfg.replace("MC_YRotate_", "").replace(".cfg", "")] = r["violated"]
+            predictions[cfg.replace("MC_YRotate_", "").replace(".cfg", "")] = r["violated"] or "holds"
             if r["violated"] != PREDICTIONS[cfg]:
                 raise core.MachineryError("%s: TLC was expected to violate %s, got %s" % (cfg, PREDICTIONS[cfg], r["violated"]))
         else:
@@ -393,18 +419,21 @@ def build_cases(ctx, rng):
 
 
 def random_cases(ctx, rng, start):
-    n = 450 if ctx.quick else 5000
+    n = 400 if ctx.quick else 5000
     from harness import rotobs as ro
     cases = []
     for i in range(n):
-        nfiles = (1, 1, 2, 1, 3, 2)[i % 6]
+        nfiles = (1, 1, 2, 1, 3, 2)[i % 6] if i % 5 != 3 else (2, 3, 1)[(i // 5) % 3]
         trees, odd = [], False
         for k in range(nfiles):
             # every file draws its anchors from the same pool, so files of one invocation reuse anchor names;
             # in a multi-file invocation some files hold no secret at all
             want = (i % 10 != 0) if nfiles == 1 else rng.random() < 0.7
+            # i % 5 == 3: secrets inside anchored Hashes/Arrays, the container anchors reused by every file of the
+            # invocation; sometimes such a container is referenced again (`copy: *box`)
             tree, o = gen_tree(rng, want_secrets=want, odd_keys=(i % 25 == 7), foreign=(i % 4 == 0),
-                               fidelity=(0.5 if i % 3 == 1 else 0.0))
+                               fidelity=(0.5 if i % 3 == 1 else 0.0), boxes=(0.7 if i % 5 == 3 else 0.0),
+                               box_alias=(0.12 if i % 10 == 3 else 0.0))
             trees.append(tree)
             odd = odd or o
         texts = [ro.to_yaml(t) for t in trees]
@@ -506,7 +535,12 @@ def run(ctx):
         "plaintexts_ending_in_line_break_not_judged": len(notes),
         "failed_runs_informational": len(failed_runs),
         "failed_runs_although_every_secret_was_under_the_old_keys": sum(
-            1 for r in failed_runs if r["all_old"] and not r["crash"] and not ({"allws", "empty"} & set(r["trails"]))),
+            1 for r in failed_runs if r["all_old"] and not r["crash"] and not r["revisit"] and not ({"allws", "empty"} & set(r["trails"]))),
+        # a secret inside a Hash/Array that is referenced twice is reported twice by the path generator; the second
+        # decryption (of the already re-keyed value) fails: exit 3 - not a successful run, so not judged, but named
+        "aliased_container_double_decrypt_exit3": sum(1 for r in failed_runs if r["revisit"] and r["all_old"]),
+        "invocations_with_secrets_inside_anchored_containers": sum(1 for r in recs if r["boxed"]),
+        "of_which_several_files_with_secrets": sum(1 for r in recs if r["boxed"] and sum(1 for n in r["nsecret"] if n) > 1),
         "odd_key_documents_informational": len(odd),
         "odd_key_documents_failed_or_deviating": len(odd_dev),
         "odd_key_samples": odd_dev[:2],
